@@ -30,6 +30,10 @@ HetOk(e)   == LET h == HetHash(e.b, e.bits) IN e.file = h.file /\ e.name1 = h.na
 \* jenkins_hash: the as-coded 64-bit accumulator or the published 32-bit function
 OaatOk(e)  == e.v = Oaat64(e.b) \/ e.v = Oaat32(e.b)
 
+\* calculate_mpq_hashes / calculate_het_hashes (crypto/mod.rs) = the primitive hashes of the same name
+WrapOk(e)  == /\ e.a = HashString(e.b, NAME_A) /\ e.bb = HashString(e.b, NAME_B) /\ e.off = HashString(e.b, TABLE_OFFSET)
+              /\ LET h == HetHash(e.b, e.bits) IN e.file = h.file /\ e.name1 = h.name1
+
 Ok(e) == CASE e.ev = "Table"    -> TableOk(e)
            [] e.ev = "Fold"     -> FoldOk(e)
            [] e.ev = "Hash"     -> HashOk(e)
@@ -37,6 +41,7 @@ Ok(e) == CASE e.ev = "Table"    -> TableOk(e)
            [] e.ev = "EncBytes" -> EncBytesOk(e)
            [] e.ev = "Het"      -> HetOk(e)
            [] e.ev = "Oaat"     -> OaatOk(e)
+           [] e.ev = "Wrap"     -> WrapOk(e)
            [] e.ev = "Reset"    -> TRUE
            [] OTHER             -> Assert(FALSE, <<"unknown event", e>>)
 
